@@ -204,6 +204,24 @@ APPEND = {
  "C20": dict(text=" Also: C20_timed_chunking (fragments separated by gaps below the wait time, any handler time), and the hypotheses discharged for a concrete reference tokenizer (C20_reference_tokenizer, C20_chunking_reference)."),
 }
 
+# final audit: notes REPLACED where earlier texts had become contradictory, qualifiers added
+REPLACE_NOTE = {
+ "C03": "Holds for the repaired code (fix: 6b886f7, b8cb536, and the put_char/put_substr forms of 92f6326, 74f3a76). Text width is the C07 model's width function over the tables re-translated from the sources (C03_text_valid_is_utf8, C03_text_count_is_utf8 tie the code-point-level text model to C07's byte-level counting) and pens are C19's attribute maps (C03_pen_copy_is_C19, C03_pen_equiv_is_C19); texts are well-formed UTF-8 over code points 1..0x1FFFFF (ill-formed bytes are C07's domain). Trusted: Coq kernel; model RBDefs.v tied by differential testing of raw structs; extraction.",
+ "C04": "Holds for the repaired code (fix: 64e35ba, 92f6326, a61eeac; mock terminal print a97d737, 303b3d3). Assumes, as the property states, that the terminal advances by the library's own widths (the mock terminal's grapheme loop is modelled and proved equal to that layout: C04_print_layout). For the two cells of a half-visible wide grapheme C04_flush_full only fixes the pen (any text); the exact content is in C04_flush_shown. Width function and pens are the C07 / C19 models (see C03). Trusted: Coq kernel; models RBDefs/RBFlushDefs tied by differential testing; the arms table (reading of the Unicode box-drawing block); tools/tables/linechars.py; extraction. The xterm driver's escape encoding is C09's matter (composition: C04_C09_flush_on_vt in Properties_C09.v).",
+ "C13": "Holds for the repaired code (fix: 74f3a76). Uses the C03 refinement lemmas; width function and pens are the C07 / C19 models (see C03). The aux-unchanged theorem for moverect is conditional on an Ok result; return is proved for non-empty rectangles (C13_move_full). Trusted: Coq kernel; models RBDefs/RBCopyDefs tied by differential testing; extraction.",
+ "C08": "PARTIAL by nature: the actual C accesses are checked by sanitizers (one process per case, plus a sweep over the other properties' harnesses), not proved. Holds for the repaired code (fix: 1973d97, 77327ff, 09b4b0d, 36efd83, 28dc336, 1edb315, 92040ef..a791942: references held during every kind of dispatch; destruction not re-entrant); pinned code refuted in Coq (C08_*_refuted witnesses). One recorded known finding (C08-mockterm-display-text-nul; t/20 relies on it). Inside the proved invariant: event-free histories AND key, mouse/drag, expose, focus, geomchange events with arbitrary re-entrant handlers (C08_no_fault = full statement with the oracle's predictive discipline; the bridge to the trace discipline with dispatch-frame references is a theorem, C08_bridge). Outside every theorem: window DESTROY handlers that make calls (modelled and compared, not proved); no explicit fuel bound (refuted once events are allowed: C08_fuel_bound_refuted_events; fuel monotonicity is proved). Window geometry is fixed in the heap model; term/pen handler scripts are expanded by the driver (trusted glue).",
+ "C17": "Holds for the repaired code (fix: 6644250, 1faa61d, ba3988c, a75654b, ef42dbf, 71fdaf0); the pinned code is refuted by C17_refuted_* witnesses, replayed every run. One specification (C17_spec_formulations_agree proves the two formulations equal). 'Runs exactly once' is C17_at_most_once plus the log equality C17_refines. The heap-level twins are separate per watch kind (timers/deferred: LoopHeap; signal/process walks: LoopChain; IO: LoopIo); nested iterations and DESTROY handlers that register/cancel are an executable model (LoopNest.v) tied by the correspondence only. A DESTROY handler may act only on watches of kinds destroyed later. Trusted: Coq kernel; models tied by differential testing under a virtual clock; extraction; the harness's clock/ppoll/waitpid wrappers.",
+ "C18": "PARTIAL by nature: the kernel signal/ppoll contract is a hypothesis (a watched signal is blocked outside ppoll and delivered by the next ppoll, which returns EINTR). Holds for the repaired code (fix: b5fb3ed, e0a376f, 5dc9719, 5568265, 2af2153, 25c7eb9, 26151f4, 89e79c0); pinned code refuted (C18_*_refuted_*). Proved: refinement of the iteration model to the snapshot specification (C18_refines: log equality for every script and ppoll outcome stream, descriptors >= 0), incl. callbacks that cancel/register/stop and the SIGINT watch of tickit_run; the self-pipe fallback refines its own snapshot specification (C18_fallback_refines). C18_signal_reaches alone (pending set empty) would be satisfied by a model that drops signals; its content comes together with C18_refines and C18_all_watchers_invoked. Implementation = model is tested, not proved.",
+}
+APPEND_NOTE = {
+ "C01": " QUALIFIER (audit): the window model runs the rectangle-set loops with a fixed fuel of 300 (WinRectSet.rsfuel); every history/flush theorem carries the hypothesis that no loop ran out of it (r_fault = false), so the theorems are silent for histories whose pending damage reaches about 300 rectangles (C05 proves that sufficient fuel always exists, but that theorem is not connected to this constant). C01_nested_* (a handler that flushes the root or changes geometry) proves the flag and id-uniqueness invariants only, and C01_history_xterm excludes flush and terminal resize.",
+ "C02": " QUALIFIER (audit): C02_rects_disjoint has the hypotheses ids_unique and Inv of the damage set, both discharged by C01's invariants (C01_forest_unique_*, C01_damage_inv); the fuel-300 qualifier of C01 applies here too.",
+ "C15": " QUALIFIER (audit): the fuel-300 qualifier of C01 applies to C15_requested / C15_flush / C15_history*.",
+ "C14": " QUALIFIER (audit): C14_mutation_rest is stated for events that no handler claims; with a claimer present only self-close is covered (C14_mutation_self_partial). C14_term_key / C14_term_mouse(_seq) require tree height below the fuel 64 (explicit in the statements).",
+ "C09": " QUALIFIER (audit): in a sequence the claim stops at the first out-of-range or excluded request (seq_ok_excl is a nested implication); 'in range' also requires no pending wrap for relative moves, erases and non-empty prints (i.e. the request after a print ending in the last column is out of range unless it is an absolute goto), erase with the cursor to move strictly inside the line, and printable ASCII for print at this level (wider text class in C04_C09_flush_on_vt).",
+ "C12": " C12_history_refuted and C12_getctl_refuted have the same statement shape (a history the checker rejects); they differ in the witness (teardown bytes vs. getctl read-back).",
+}
+
 NA_REASON = "not yet built in this revision: model/proof/correspondence for this property are scheduled (DESIGN.md section 10)"
 
 def main():
@@ -213,6 +231,12 @@ def main():
         c = dict(CLAIMED[pid])
         for k, v in APPEND.get(pid, {}).items():
             c[k] = c[k] + v
+        if pid in REPLACE_NOTE:
+            c["note"] = REPLACE_NOTE[pid]
+        c["note"] = c["note"] + APPEND_NOTE.get(pid, "")
+        c["text"] = (c["text"].replace("(C13_copy, C13_move, C13_blit, C13_aux_unchanged)", "(C13_copy_full, C13_move_full, C13_blit_full with their _reachable forms, C13_*_aux_unchanged)")
+                     .replace("(C08_bindings_twin_*)", "(C08_bindings_twin_simulates, C08_bindings_no_fault, C08_bindings_exact, C08_bindings_all_released)")
+                     .replace("pairwise disjoint, unconditionally, from", "pairwise disjoint, from"))
         checks.append({
           "property_id": pid,
           "quick_cmd": "./check %s --tier quick" % pid,
